@@ -219,13 +219,32 @@ class Ctx:
         raise NeedChoice(n)
 
     def feasible(self, cond):
-        key = tuple(e.get_id() for e in self.pc) + (cond.get_id(),)
+        # cone of influence: only the path-condition conjuncts that (transitively) share a variable with `cond` can
+        # decide its feasibility, given that the path condition itself is satisfiable (every obligation re-checks the
+        # full path condition, so an unnoticed inconsistency elsewhere can only make a path vacuous, never a verdict wrong)
+        need = set(self._vars_of(cond))
+        rel, rest = [], list(self.pc)
+        changed = True
+        while changed and rest:
+            changed = False
+            keep = []
+            for e in rest:
+                vs = self._vars_of(e)
+                if not vs or (vs & need):
+                    rel.append(e)
+                    if not vs <= need:
+                        need |= vs
+                        changed = True
+                else:
+                    keep.append(e)
+            rest = keep
+        key = tuple(sorted(e.get_id() for e in rel)) + (cond.get_id(),)
         c = self.feas_cache
         if key in c:
             return c[key][0]
         s = self.solver
         s.push()
-        for e in self.pc:
+        for e in rel:
             s.add(e)
         s.add(cond)
         r = s.check()
@@ -233,7 +252,7 @@ class Ctx:
         if self.stats is not None:
             self.stats["queries"] += 1
         ok = r != z3.unsat
-        c[key] = (ok, self.pc[:], cond)   # keep exprs alive so ids stay unique
+        c[key] = (ok, rel, cond)   # keep exprs alive so ids stay unique
         return ok
 
     def assume(self, cond):
